@@ -116,7 +116,16 @@ func execXO(o *Out, id, line string) {
 				want, _ := chunkRaw(chunk)
 				out, unread2, err2 := inflateAll(append(append([]byte{}, chunk...), 0, 0, 0, 0xff, 0xff))
 				if !(err2 == io.ErrUnexpectedEOF && unread2 == 0 && len(out) == want) {
-					sig = "final-block-in-chunk"
+					// the known finding is about chunks that PASS the reader's checks legitimately,
+					// in particular the sync marker: an accepted chunk whose last four bytes are not
+					// 00 00 ff ff is a different violation and is reported as such
+					if bytes.HasSuffix(chunk, []byte{0, 0, 0xff, 0xff}) {
+						if sig == "accept-not-deflate" {
+							sig = "final-block-in-chunk"
+						}
+					} else {
+						sig = "accepted-chunk-without-sync-marker"
+					}
 				}
 			}
 			prev = rec.CompOffset
@@ -389,6 +398,16 @@ func craftChunk(r *Rand) []byte {
 	default: // junk ending in the marker
 		b = append(b, r.Bytes(1+r.Intn(10))...)
 		b = append(b, sync...)
+	}
+	if r.Intn(5) == 0 && len(b) >= 4 {
+		// a near miss of the sync marker at the end of the chunk (stored-block lengths count bytes,
+		// so the block structure is unchanged): one byte replaced or one bit flipped
+		k := len(b) - 1 - r.Intn(4)
+		if r.Intn(2) == 0 {
+			b[k] ^= 1 << uint(r.Intn(8))
+		} else {
+			b[k] = byte(r.U64())
+		}
 	}
 	return b
 }
